@@ -15,7 +15,7 @@ from . import taint_common as tc
 
 PID = "C11"
 
-VARIANTS = ["sink-line-first-site", "extended-same-name", "standard", "no-source", "no-sink", "no-rules", "lang-mismatch", "unit-name-match", "unit-name-mismatch",
+VARIANTS = ["sink-dotted-name", "sink-line-first-site", "extended-same-name", "standard", "no-source", "no-sink", "no-rules", "lang-mismatch", "unit-name-match", "unit-name-mismatch",
             "line-match", "line-off-by-one", "sink-line-off-by-one", "sink-other-arg", "extended"]
 
 
@@ -47,6 +47,9 @@ def run_case(case):
         snks, allowed_by_rules = [dict(k, line_num=prog["K"] + 1)], False
     elif variant == "sink-other-arg":
         snks, allowed_by_rules = [dict(k, target=["\\%arg1"])], False
+    elif variant == "sink-dotted-name":
+        # a dotted rule name whose last component equals the plain callee's name designates another callee
+        snks, allowed_by_rules = [dict(k, name="vault." + k["name"])], False
     elif variant == "sink-line-first-site":
         k0 = [i + 1 for i, l in enumerate(prog["main"].splitlines()) if l.rstrip().endswith("#K0")]
         snks = [dict(k, line_num=k0[0] if k0 else prog["K"])]
@@ -63,7 +66,7 @@ def run_case(case):
     res.pop("_lian", None)
     res["S"], res["K"] = prog["S"], prog["K"]
     res["K0"] = [i + 1 for i, l in enumerate(prog["main"].splitlines()) if l.rstrip().endswith("#K0")]
-    res["kind"] = prog["kind"] if kk not in ("call-arg1", "kwcallee-cut") else "cut"
+    res["kind"] = prog["kind"] if kk not in tc.CUT_SINKS else "cut"
     res["variant_sink_line"] = snks[0].get("line_num") if snks and variant == "sink-line-first-site" else None
     res["allowed_by_rules"] = allowed_by_rules
     res["feats"] = sorted(prog["feats"])
@@ -80,7 +83,8 @@ def main():
     bases = [c for c in tc.case_list(quick, 1)]
     if quick:
         bases = [c for c in bases if c[4] == "one" and (len(c[0]) == 0 or (c[1], c[2]) == ("call", "call") or c[0] == ("copy",))]
-    cases = [(b, v) for b in bases for v in VARIANTS if not (v in ("sink-other-arg", "extended-same-name") and b[2] == "call-arg1")]
+    cases = [(b, v) for b in bases for v in VARIANTS if not (v in ("sink-other-arg", "extended-same-name") and b[2] == "call-arg1")
+             and not (v == "sink-dotted-name" and b[2] in ("method", "receiver", "receiver-cut"))]
     results = {}
     stats = {"runs": 0, "runs_with_reported_flows": 0, "reported_flows": 0, "justified": 0, "monotone_checks": 0}
     for idx, res in runner.fork_map(run_case, cases, cpu_limit=300):
